@@ -1,0 +1,117 @@
+//! C23: exposes both sides of wild's size accounting for one symbol resolution so that external
+//! verification can enumerate them over the whole finite flag domain: the allocation side
+//! (`Elf::allocate_resolution`, what `compute_allocations` wraps) and the consumption side (the
+//! real `TableWriter::process_resolution`, dry-run against scratch buffers exactly like
+//! `verify_resolution_allocation` does). Adds no behaviour.
+
+use crate::elf::Elf;
+use crate::part_id;
+use crate::platform::Platform as _;
+use crate::value_flags::ValueFlags;
+use std::num::NonZeroU32;
+
+/// Entry counts in the order GOT, .plt.got, .rela.plt, .rela.dyn (general), .rela.dyn
+/// (relative), .relr.dyn.
+pub type Counts = [u64; 6];
+
+pub struct AllocRow {
+    pub alloc: Counts,
+    /// `Err(message)` if the writer refuses the resolution (user-level error or needs a layout).
+    pub consume: Result<Counts, String>,
+    /// The verdict of wild's own `verify_resolution_allocation` on the allocation.
+    pub verify: Result<(), String>,
+}
+
+fn args_with_relr(relr: bool) -> crate::args::elf::ElfArgs {
+    let mut args = crate::args::elf::ElfArgs::default();
+    args.z_pack_relative_relocs = relr;
+    args
+}
+
+/// `output_kind` as in `verif_api::x86relax` (0 static, 1 static PIE, 2 dynamic non-PIE, 3 PIE,
+/// 4 shared). The resolution is built the way `verify_consistent_allocation_handling` builds it.
+pub fn alloc_vs_consume(
+    flag_bits: u16,
+    output_kind: u32,
+    relr: bool,
+    raw_value: u64,
+    has_dynamic_symbol_index: bool,
+) -> AllocRow {
+    let flags = ValueFlags::from_bits_retain(flag_bits);
+    let output_kind = super::x86relax::output_kind_from_index(output_kind);
+    let args = args_with_relr(relr);
+
+    let output_sections = crate::output_section_id::OutputSections::<Elf>::with_base_address(0);
+    let (output_order, _program_segments) = output_sections.output_order(output_kind);
+    let mut mem_sizes = output_sections.new_part_map::<u64>();
+    Elf::allocate_resolution(flags, &mut mem_sizes, output_kind, &args);
+    let alloc = [
+        *mem_sizes.get(part_id::GOT) / crate::elf::GOT_ENTRY_SIZE,
+        *mem_sizes.get(part_id::PLT_GOT) / crate::elf::PLT_ENTRY_SIZE,
+        *mem_sizes.get(part_id::RELA_PLT) / crate::elf::RELA_ENTRY_SIZE,
+        *mem_sizes.get(part_id::RELA_DYN_GENERAL) / crate::elf::RELA_ENTRY_SIZE,
+        *mem_sizes.get(part_id::RELA_DYN_RELATIVE) / crate::elf::RELA_ENTRY_SIZE,
+        *mem_sizes.get(part_id::RELR_DYN) / crate::elf::RELR_ENTRY_SIZE,
+    ];
+
+    let mut memory_offsets = output_sections.new_part_map::<u64>();
+    *memory_offsets.get_mut(part_id::GOT) = 0x10;
+    *memory_offsets.get_mut(part_id::PLT_GOT) = 0x10;
+    let dynamic_symbol_index = has_dynamic_symbol_index.then(|| NonZeroU32::new(1).unwrap());
+    let resolution =
+        Elf::create_resolution(flags, raw_value, dynamic_symbol_index, &mut memory_offsets);
+
+    let consume =
+        crate::elf_writer::verif_consumed_by_resolution(output_kind, &resolution, &args, 8)
+            .map_err(|e| format!("{e:?}"));
+    let verify = Elf::verify_resolution_allocation(
+        &output_sections,
+        &output_order,
+        output_kind,
+        &mem_sizes,
+        &resolution,
+        &args,
+    )
+    .map_err(|e| format!("{e:?}"));
+    AllocRow {
+        alloc,
+        consume,
+        verify,
+    }
+}
+
+/// Called from `finalise_symbol_sizes` for every canonical symbol: when `WILD_VERIF_ALLOC_DUMP`
+/// names a file, appends `<flag bits> <output kind index>` so that the set of resolutions that real
+/// links produce can be compared with the domain of the verified model.
+pub(crate) fn note_resolution(flag_bits: u16, output_kind: crate::output_kind::OutputKind) {
+    use crate::args::RelocationModel;
+    use crate::output_kind::OutputKind;
+    use std::io::Write as _;
+    static SEEN: std::sync::Mutex<Option<std::collections::HashSet<(u16, u32)>>> =
+        std::sync::Mutex::new(None);
+    let Some(path) = std::env::var_os("WILD_VERIF_ALLOC_DUMP") else {
+        return;
+    };
+    let kind = match output_kind {
+        OutputKind::StaticExecutable(RelocationModel::NonRelocatable) => 0,
+        OutputKind::StaticExecutable(RelocationModel::Relocatable) => 1,
+        OutputKind::DynamicExecutable(RelocationModel::NonRelocatable) => 2,
+        OutputKind::DynamicExecutable(RelocationModel::Relocatable) => 3,
+        OutputKind::SharedObject => 4,
+        OutputKind::Relocatable => 5,
+    };
+    let mut seen = SEEN.lock().unwrap();
+    if !seen
+        .get_or_insert_with(Default::default)
+        .insert((flag_bits, kind))
+    {
+        return;
+    }
+    if let Ok(mut f) = std::fs::OpenOptions::new()
+        .create(true)
+        .append(true)
+        .open(path)
+    {
+        let _ = writeln!(f, "{flag_bits} {kind}");
+    }
+}
